@@ -823,7 +823,11 @@ class Gen:
                "   loops = forUp / forDown / whileFuel applied to a body that returns `Ctl.next state` (fall through, `continue`) or `Ctl.brk state` (`break`);",
                "   locals are named by position (v1, v2, ...; parameters a0, a1, ...; temporaries t1, ...). -/"]
         out += [f"import {m}" for m in spec["imports"]]
-        out += ["", "set_option linter.unusedVariables false", "", f"namespace HC.{spec['ns']}", "open HC", "", PRELUDE]
+        out += ["", "set_option linter.unusedVariables false", "", f"namespace HC.{spec['ns']}", "open HC", ""]
+        if spec.get("prelude_file"):
+            # the loop combinators and checked primitives shared by the app-mode files: no source dependence, cannot fail
+            return "\n".join(["/- GENERATED by tools/rs2lean_app.py -- do not edit.  Prelude of the app-mode files (Gen/App*Fns.lean): loop combinators and",
+                               "   checked primitives; see TRANSLATOR / notes phase 4h. -/"] + out[4:] + [PRELUDE, f"end HC.{spec['ns']}", ""])
         for ent in spec["table"]:
             if "enum" in ent: self.load_enum(ent); continue
             if "enum_alias" in ent:
